@@ -2,8 +2,8 @@
 //
 // Differential execution (E-MODEL): generated Add / Update / UpdateNoLocks / Remove sequences on the
 // real fs.NewRegistry against a map model. After EVERY operation EVERY id of the program's domain is
-// looked up through a fresh registry instance with a fresh L2 cache (disk truth), one id per Get, and
-// once more as one batch Get through a second fresh instance.
+// looked up through a fresh registry instance with a fresh L2 cache (disk truth), one id per Get; on
+// every 4th operation additionally as one batch Get through a second fresh instance.
 //
 // What is asserted (the statement, weaker reading where ambiguous):
 //   - an operation whose documented precondition holds (Add of an absent id, Update/UpdateNoLocks/
@@ -22,11 +22,11 @@ import (
 	"crypto/sha256"
 	"encoding/hex"
 	"fmt"
-	"io"
 	"math/rand"
-	"os"
 	"sort"
 	"sync"
+	"syscall"
+	"unsafe"
 
 	"github.com/sharedcode/sop"
 	"github.com/sharedcode/sop/encoding"
@@ -95,26 +95,20 @@ type snapshot struct {
 	occ    map[[3]int]sop.UUID // (seg, block, slot) -> logical id
 }
 
-// takeSnapshot decodes the one block the program's ids live in, from every segment file, with plain
-// buffered reads (independent of the registry's lookup code; only the slot codec is shared).
+// takeSnapshot decodes the one block the program's ids live in, from every segment file, with its
+// own O_DIRECT reads (independent of the registry's lookup code; only the slot codec is shared).
 func takeSnapshot(base string, block int) (snapshot, error) {
 	s := snapshot{occ: map[[3]int]sop.UUID{}}
 	files := regx.SegmentFiles(base, table)
 	s.nseg = len(files)
 	m := encoding.NewHandleMarshaler()
-	buf := make([]byte, regx.BlockSize)
 	for si, fn := range files {
-		f, err := os.Open(fn)
+		buf, err := directRead(fn, int64(block)*regx.BlockSize)
 		if err != nil {
 			return s, err
 		}
-		n, err := f.ReadAt(buf, int64(block)*regx.BlockSize)
-		f.Close()
-		if n != regx.BlockSize {
-			if err == io.EOF || err == nil {
-				continue // short / still empty segment file: nothing stored in this block
-			}
-			return s, err
+		if buf == nil {
+			continue // short / still empty segment file: nothing stored in this block
 		}
 		for sl := 0; sl < regx.HandlesPerBlock; sl++ {
 			raw := buf[sl*regx.SlotSize : (sl+1)*regx.SlotSize]
@@ -232,6 +226,60 @@ func opClass(kind string) string {
 		return "update"
 	}
 	return kind
+}
+
+// ---- harness-side block I/O: O_DIRECT like the registry itself, so that the page cache never sits
+// between what the registry wrote and what the harness inspects (mixing buffered and direct I/O on
+// one file is not guaranteed coherent) ----
+
+func alignedBlock() []byte {
+	b := make([]byte, 2*regx.BlockSize)
+	off := int(uintptr(unsafe.Pointer(&b[0])) & (regx.BlockSize - 1))
+	if off != 0 {
+		off = regx.BlockSize - off
+	}
+	return b[off : off+regx.BlockSize : off+regx.BlockSize]
+}
+
+// directRead returns the 4096-byte block at byte offset off; (nil, nil) when the file ends before it.
+func directRead(path string, off int64) ([]byte, error) {
+	fd, err := syscall.Open(path, syscall.O_RDONLY|syscall.O_DIRECT, 0)
+	if err != nil {
+		return nil, err
+	}
+	defer syscall.Close(fd)
+	buf := alignedBlock()
+	n, err := syscall.Pread(fd, buf, off)
+	if err != nil {
+		return nil, err
+	}
+	if n == 0 {
+		return nil, nil
+	}
+	if n != regx.BlockSize {
+		return nil, fmt.Errorf("short direct read: %d bytes at %d of %s", n, off, path)
+	}
+	out := make([]byte, regx.BlockSize)
+	copy(out, buf)
+	return out, nil
+}
+
+func directWrite(path string, off int64, data []byte) error {
+	fd, err := syscall.Open(path, syscall.O_WRONLY|syscall.O_DIRECT, 0)
+	if err != nil {
+		return err
+	}
+	defer syscall.Close(fd)
+	buf := alignedBlock()
+	copy(buf, data)
+	n, err := syscall.Pwrite(fd, buf, off)
+	if err != nil {
+		return err
+	}
+	if n != regx.BlockSize {
+		return fmt.Errorf("short direct write: %d", n)
+	}
+	return nil
 }
 
 // ---- one program ----
@@ -706,7 +754,7 @@ func progHash(p program) string {
 }
 
 func Run(r *report.Run) int {
-	nProg := r.Pick(200, 3000)
+	nProg := r.Pick(160, 1500)
 	nOps := 40
 	results := make([]*result, nProg)
 	var wg sync.WaitGroup
